@@ -340,7 +340,13 @@ class Env:
         now = ticks(self.loop.time())
         self.rec.emit("apiSend", sid, now, now + life, retries, 1 if kind == "ok" else 0)
         try:
-            await self.sock.send(msg, pol)
+            if sid % 4 == 3 and kind == "ok":
+                # the second public entry point: the caller supplies the header (built as send() would build it)
+                enc = self.reg.get_encoder(msg.message_id)
+                hdr = self.reg.header_factory.create_from_message(msg, enc.size(msg))
+                await self.sock.send_with_header(hdr, msg, pol)
+            else:
+                await self.sock.send(msg, pol)
         except S.NotOpenError:
             self.rec.emit("reject", sid, "notOpen", ticks(self.loop.time()))
         except S.QueueOverflowError:
